@@ -1,3 +1,78 @@
 package main
 
-func checkRunTxAnte(r *Run, rule string) {}
+import (
+	"strings"
+
+	"golang.org/x/tools/go/ssa"
+)
+
+const (
+	txCtx0   = "(*baseapp.BaseApp).getContextForTx(param:app, param:mode, param:txBytes)"
+	anteCtx  = "(*baseapp.BaseApp).cacheTxContext(param:app, " + txCtx0 + ", param:txBytes)"
+	anteCall = "dyn[param:app.anteHandler](" + anteCtx + "#0, param:tx, param:txBytes, param:app.tmNode, (param:mode == 1))"
+)
+
+// checkRunTxAnte: the ante handler runs on a cache that is written only when it did not abort and
+// the mode is Deliver (C03-R5 / C11-R2).
+func checkRunTxAnte(r *Run, rule string) {
+	P := r.P
+	r.Rule(rule, "runTx: the ante handler receives a context over a CacheMultiStore of the tx context (cacheTxContext), the simulate flag is mode==Simulate; that cache is written only under !abort and mode==Deliver; an aborting ante handler returns before any message handling; basic message validation precedes the ante handler", 8)
+	f := r.fn("(*baseapp.BaseApp).runTx")
+	if f == nil {
+		return
+	}
+	var ante ssa.CallInstruction
+	Instrs(f, func(in ssa.Instruction) {
+		if ci, ok := in.(ssa.CallInstruction); ok {
+			if strings.HasPrefix(P.callTerm(ci).String(), "dyn[param:app.anteHandler](") {
+				ante = ci
+			}
+		}
+	})
+	if ante == nil {
+		r.Viol(rule, "runTx/ante-call", P.Pos(f.Pos()), "runTx no longer calls app.anteHandler")
+		return
+	}
+	got := P.callTerm(ante).String()
+	r.Check(got == anteCall, rule, "runTx/ante-call", P.InstrPos(ante), got, "ante handler is called as "+got+" ; required "+anteCall)
+	r.requireAtoms(rule, "runTx/ante-call", ante, P.Guards(ante, 1), []req{
+		{"msgs-validated", `^isnil\(baseapp\.validateBasicTxMsgs\(types\.Tx\.GetMsg\(param:tx\)\)\)$`},
+		{"msg-ValidateBasic-ok", `^isnil\(types\.Msg\.ValidateBasic\(types\.Tx\.GetMsg\(param:tx\)\)\)$`},
+	})
+	// the cache write
+	var writes []ssa.CallInstruction
+	for _, c := range CallsIn(f, "store/types.CacheMultiStore.Write") {
+		if argTerm(P.callTerm(c), 0).String() == anteCtx+"#1" {
+			writes = append(writes, c)
+		}
+	}
+	if len(writes) != 1 {
+		r.Viol(rule, "runTx/ante-cache-write", P.Pos(f.Pos()), "expected exactly one Write of the ante cache")
+	} else {
+		r.requireAtoms(rule, "runTx/ante-cache-write", writes[0], P.Guards(writes[0], 0), []req{
+			{"not-aborted", `^!` + q(anteCall+"#2") + `$`},
+			{"mode==Deliver", `^\(2 == param:mode\)$`},
+		})
+		r.Check(Precedes(ante, writes[0]), rule, "runTx/ante-before-write", P.InstrPos(writes[0]), "written after the ante handler ran", "the ante cache is written before the ante handler ran")
+	}
+	// abort => return before runMsg
+	for _, e := range P.ifEdgesFor(f, `^`+q(anteCall+"#2")+`$`) {
+		reach, w, _ := ReachFromBlock(e.B.Succs[e.I], func(in ssa.Instruction) bool {
+			return CallTo("(*baseapp.BaseApp).runMsg")(in) || CallTo("store/types.CacheMultiStore.Write")(in)
+		}, nil, nil)
+		r.Check(!reach, rule, "runTx/abort=>return", P.InstrPos(ante), "an aborting ante handler leads only to return", "after abort=true execution can still reach "+P.InstrPos(w))
+	}
+	if len(P.ifEdgesFor(f, `^`+q(anteCall+"#2")+`$`)) == 0 {
+		r.Viol(rule, "runTx/abort=>return", P.InstrPos(ante), "the abort result of the ante handler is no longer tested")
+	}
+	// cacheTxContext really caches the given context's multistore
+	if g := r.fn("(*baseapp.BaseApp).cacheTxContext"); g != nil {
+		for _, ret := range Returns(g) {
+			c0 := P.TermAt(ret.Results[0], ret).String()
+			c1 := P.TermAt(ret.Results[1], ret).String()
+			cache := "store/types.MultiStore.CacheMultiStore(types.Ctx.MultiStore(param:ctx))"
+			ok := strings.Contains(c1, cache) && strings.HasPrefix(c0, "types.Ctx.WithMultiStore(param:ctx, ") && strings.Contains(c0, cache)
+			r.Check(ok, rule, "cacheTxContext", P.InstrPos(ret), "returns (ctx.WithMultiStore(cache), cache) with cache = ctx.MultiStore().CacheMultiStore()", "cacheTxContext returns ("+c0+", "+c1+")")
+		}
+	}
+}
